@@ -342,41 +342,11 @@ def main(tier):
             # a finer prediction of the model failed on a real run.  Property-level only if the
             # observable selection is affected; otherwise it is a drift of the specification.
             rep.drift("corpus test %s: %s" % (names[v.fail_exec], v.detail))
-        # composed validation: every statement is one step of CondAsm AND AddrBook at once, plus the cross-machine
-        # claims SkippedIsInert / RecordedIsInert / IfFamilyIsAddressNeutral (spec/AsCore_Trace.tla)
-        cexecs, cresets, cnames, classes = [], [], [], {}
-        for name, res in ctr:
-            if res.trace is None:
-                continue
-            for ex in to_core_events(res.trace):
-                if core_too_big(ex):
-                    continue
-                cresets.append(ex[0])
-                cexecs.append(ex[1])
-                cnames.append(name)
-                for e in ex[1]:
-                    key = e["ca"] if e["ca"] != "OTHER" else ("addr:" + e["cb"] if e["cb"] != "OTHER" else
-                                                              ("skipped" if not e["ifasm"] else
-                                                               ("recorded" if e["rec"] else "generic")))
-                    classes[key] = classes.get(key, 0) + 1
-        with Phase("composed validation (AsCore_Trace)"):
-            v2 = tracecheck.validate("AsCore_Trace", cexecs, resets=cresets, timeout=1500, mem="8g")
-        total = sum(classes.values()) or 1
-        rep.part("AsCore_Trace(corpus)", events=v2.events, executions=v2.executions, accepted=v2.accepted,
-                 wall_s=v2.wall, statements_by_class=classes,
-                 share_handled_by_a_named_action=round(1.0 - classes.get("generic", 0) / total, 4))
-        rep.cov["states"] += v2.states
-        rep.cov["transitions"] += v2.generated
-        rep.traces(v2.executions)
-        if not v2.accepted:
-            ev = v2.fail_event or {}
-            skipped_effect = (not ev.get("ifasm", True)) and ev.get("ca") == "OTHER" and (ev.get("chunks") or [])
-            if skipped_effect:
-                rep.violation("golden test %s: a statement in a branch that is not selected had an effect: %s"
-                              % (cnames[v2.fail_exec], v2.detail[:300]), case={"test": cnames[v2.fail_exec], "event": ev},
-                              key={"kind": "skipped-effect", "test": cnames[v2.fail_exec]})
-            else:
-                rep.drift("composed trace of %s: %s" % (cnames[v2.fail_exec], v2.detail[:300]))
+        # composed validation: ONE recorded execution (all passes of one process) is validated against ALL
+        # statement-level machines at once - CondAsm x AddrBook x Diag/Driver x CodeWriter (stream view) x MacroProc
+        # (projected) - plus the cross-machine claims of spec/AsCore.tla (checks/ext_ascore.py)
+        from checks import ext_ascore
+        ext_ascore.run(rep, bld, tier)
     return rep.finish(
         rule="programs = every transition of the CondAsm machine graph (TLC transition cover, shortest prefix + "
              "balancing closers) + TLC-simulated grammatical programs (depth<=4, <=24 statements) rendered with "
